@@ -689,6 +689,54 @@ func invariantsAllKeys(t rk.Failer, p *input.Point) string {
 	return ""
 }
 
+// TestReinitialisedPoint: a host may keep one Point value and initialise it again for the next record, without
+// returning it to the pool in between: nothing of the previous record survives - neither keys nor index entries.
+func TestReinitialisedPoint(t *testing.T) {
+	ops := allOps()
+	rk.Check(t, "reinit", 13, evid.Scale(300, 3000), func(t *rapid.T) {
+		p := newPoint()
+		var path []string
+		for i, n := 0, rapid.IntRange(0, 6).Draw(t, "before"); i < n; i++ {
+			o := ops[rapid.IntRange(0, len(ops)-1).Draw(t, "op")]
+			path = append(path, o.Text)
+			if _, crash := impl.RunV1(load(t, o.Text), p, nil); crash != nil {
+				rk.Fail(t, "reinit", replay{Ops: path}, "operation panicked: %s", crash.Value)
+			}
+		}
+		// the next record: other keys (some names change kind, some disappear)
+		tags := map[string]string{}
+		fields := map[string]any{}
+		for _, k := range keys {
+			switch rapid.IntRange(0, 3).Draw(t, "next-"+k) {
+			case 0:
+				tags[k] = "next tag " + k
+			case 1:
+				fields[k] = rapid.SampledFrom([]any{int64(9), "next", 1.5, nil, true}).Draw(t, "val-"+k)
+			}
+		}
+		path = append(path, fmt.Sprintf("InitPt again with tags %v fields %v", tags, fields))
+		input.InitPt(p, "m2", tags, fields, impl.FixedTime())
+		if msg := invariants(t, p); msg != "" {
+			rk.Fail(t, "reinit", replay{Ops: path}, "right after the second InitPt: %s\nhistory: %s", msg, strings.Join(path, " ; "))
+		}
+		for k := range p.Meta {
+			if _, a := p.Tags[k]; !a {
+				if _, b := p.Fields[k]; !b {
+					rk.Fail(t, "reinit", replay{Ops: path}, "after the second InitPt the index still holds %q, which is neither a tag nor a field of the new record\nhistory: %s", k, strings.Join(path, " ; "))
+				}
+			}
+		}
+		for i, n := 0, rapid.IntRange(1, 6).Draw(t, "after"); i < n; i++ {
+			o := ops[rapid.IntRange(0, len(ops)-1).Draw(t, "op2")]
+			path = append(path, o.Text)
+			if msg := apply(t, p, o); msg != "" {
+				rk.Fail(t, "reinit", replay{Ops: path}, "%s\nhistory: %s", msg, strings.Join(path, " ; "))
+			}
+		}
+		evid.Case("reinit/"+strings.Join(path, ";"), true, "reinitialised-point")
+	})
+}
+
 func TestRandomSequences(t *testing.T) {
 	ops := allOps()
 	rk.Check(t, "random", 1, evid.Scale(600, 6000), func(t *rapid.T) {
